@@ -306,3 +306,227 @@ func VerifC18IDCodec() {
 	out, err := id.MarshalJSON()
 	symAssert(err == nil && string(out) == string(data), "the id is written back byte for byte")
 }
+
+// ---- a small JSON reader standing in for encoding/json's reflective decoder (engine only) ----
+
+func verifJSONSkip(d []byte, i int) int {
+	for i < len(d) && (d[i] == ' ' || d[i] == '\t' || d[i] == '\n' || d[i] == '\r') {
+		i++
+	}
+	return i
+}
+
+// verifJSONValueEnd returns the index just past the JSON value starting at i (-1 if malformed).
+func verifJSONValueEnd(d []byte, i int) int {
+	if i >= len(d) {
+		return -1
+	}
+	switch c := d[i]; {
+	case c == '"':
+		for j := i + 1; j < len(d); j++ {
+			if d[j] == '\\' {
+				j++
+			} else if d[j] == '"' {
+				return j + 1
+			}
+		}
+		return -1
+	case c == '{' || c == '[':
+		depth := 0
+		for j := i; j < len(d); j++ {
+			switch d[j] {
+			case '"':
+				e := verifJSONValueEnd(d, j)
+				if e < 0 {
+					return -1
+				}
+				j = e - 1
+			case '{', '[':
+				depth++
+			case '}', ']':
+				depth--
+				if depth == 0 {
+					return j + 1
+				}
+			}
+		}
+		return -1
+	default:
+		j := i
+		for j < len(d) && d[j] != ',' && d[j] != '}' && d[j] != ']' && d[j] != ' ' && d[j] != '\n' {
+			j++
+		}
+		if j == i {
+			return -1
+		}
+		return j
+	}
+}
+
+// verifJSONObject splits {"k":v,...} into keys and raw values.
+func verifJSONObject(d []byte) (keys []string, vals [][]byte, ok bool) {
+	i := verifJSONSkip(d, 0)
+	if i >= len(d) || d[i] != '{' {
+		return nil, nil, false
+	}
+	i = verifJSONSkip(d, i+1)
+	if i < len(d) && d[i] == '}' {
+		return nil, nil, verifJSONSkip(d, i+1) == len(d)
+	}
+	for {
+		e := verifJSONValueEnd(d, i)
+		if e < 0 || d[i] != '"' {
+			return nil, nil, false
+		}
+		keys = append(keys, string(d[i+1:e-1]))
+		i = verifJSONSkip(d, e)
+		if i >= len(d) || d[i] != ':' {
+			return nil, nil, false
+		}
+		i = verifJSONSkip(d, i+1)
+		e = verifJSONValueEnd(d, i)
+		if e < 0 {
+			return nil, nil, false
+		}
+		cp := make([]byte, e-i)
+		copy(cp, d[i:e])
+		vals = append(vals, cp)
+		i = verifJSONSkip(d, e)
+		if i < len(d) && d[i] == ',' {
+			i = verifJSONSkip(d, i+1)
+			continue
+		}
+		if i < len(d) && d[i] == '}' {
+			return keys, vals, verifJSONSkip(d, i+1) == len(d)
+		}
+		return nil, nil, false
+	}
+}
+
+func verifRawOrNil(raw []byte) *json.RawMessage {
+	if string(raw) == "null" {
+		return nil // encoding/json sets a pointer field to nil for null
+	}
+	rm := json.RawMessage(raw)
+	return &rm
+}
+
+// verifUnmarshalMessage stands in for encoding/json.Unmarshal (and Decoder.Decode) for the types
+// the message decoder uses: the combined wire struct, the error object, ids and plain strings.
+func verifUnmarshalMessage(data []byte, v any) error {
+	switch p := v.(type) {
+	case *int32, *string:
+		return verifUnmarshalScalar(data, v)
+	case *combined:
+		keys, vals, ok := verifJSONObject(data)
+		if !ok {
+			return verifErrJSON
+		}
+		for k, key := range keys {
+			raw := vals[k]
+			switch key {
+			case "jsonrpc":
+				if err := p.VersionTag.UnmarshalJSON(raw); err != nil {
+					return err
+				}
+			case "id":
+				if string(raw) != "null" {
+					p.ID = new(ID)
+					if err := p.ID.UnmarshalJSON(raw); err != nil {
+						return err
+					}
+				}
+			case "method":
+				if err := verifUnmarshalScalar(raw, &p.Method); err != nil {
+					return err
+				}
+			case "params":
+				p.Params = verifRawOrNil(raw)
+			case "result":
+				p.Result = verifRawOrNil(raw)
+			case "error":
+				if string(raw) == "null" {
+					continue
+				}
+				ek, ev, ok := verifJSONObject(raw)
+				if !ok {
+					return verifErrJSON
+				}
+				p.Error = &Error{}
+				for j, name := range ek {
+					switch name {
+					case "code":
+						var n int32
+						if err := verifUnmarshalScalar(ev[j], &n); err != nil {
+							return err
+						}
+						p.Error.Code = Code(n)
+					case "message":
+						if err := verifUnmarshalScalar(ev[j], &p.Error.Message); err != nil {
+							return err
+						}
+					case "data":
+						p.Error.Data = verifRawOrNil(ev[j])
+					}
+				}
+			}
+		}
+		return nil
+	}
+	return verifErrJSON
+}
+
+// VerifC18DecodeKinds: every kind of message - call, notification, success response (result a
+// string, an object, or JSON null), error response - written with the real encoder is read back by
+// the real DecodeMessage as a message of the same kind with the same id, method and payload.
+func VerifC18DecodeKinds() {
+	var id ID
+	if symBool("stringID") {
+		id = NewStringID("a1")
+	} else {
+		id = NewNumberID(7)
+	}
+	var m Message
+	var err error
+	kind := symChoose(6)
+	switch kind {
+	case 0:
+		m, err = NewCall(id, "do", []string{"p"})
+	case 1:
+		m, err = NewNotification("note", nil)
+	case 2:
+		m, err = NewResponse(id, "r", nil)
+	case 3:
+		m, err = NewResponse(id, map[string]int{"a": 1}, nil)
+	case 4:
+		m, err = NewResponse(id, nil, nil) // "result":null - a valid success response
+	case 5:
+		m, err = NewResponse(id, nil, NewError(MethodNotFound, "nope"))
+	}
+	symAssert(err == nil, "message built")
+	data, err := json.Marshal(m)
+	symAssert(err == nil, "message encodes")
+	symObserve("wire", string(data))
+	back, err := DecodeMessage(data)
+	symCover("decoded-kinds")
+	symAssert(err == nil, "a message written by the encoder is read back")
+	if err != nil {
+		return
+	}
+	again, err := json.Marshal(back)
+	symAssert(err == nil && string(again) == string(data), "the message read back encodes to the same bytes")
+	switch kind {
+	case 0:
+		c, ok := back.(*Call)
+		symAssert(ok && c.ID() == id && c.Method() == "do", "a call is read back as a call with its id and method")
+	case 1:
+		n, ok := back.(*Notification)
+		symAssert(ok && n.Method() == "note", "a notification is read back as a notification")
+	default:
+		r, ok := back.(*Response)
+		symAssert(ok && r.ID() == id, "a response is read back as a response with its id")
+		if ok {
+			symAssert((r.Err() != nil) == (kind == 5), "only the error response carries an error")
+		}
+	}
+}
